@@ -80,8 +80,9 @@ ghost var gStored bool
 ghost var gStoreErr error
 
 func mailbox.(*DirHandler).GetInboundAnswer(h, p) (a)
-  # (C02: duplicate suppression by MID on the receiving mailbox)
-  props C12 C10 C02
+  # (C02: duplicate suppression by MID on the receiving mailbox; C11: 'already received' only
+  # if the complete, published copy exists - temporary files never count)
+  props C12 C10 C02 C11
   # SetUnread writes to the path named by the message's X-FilePath header, which cannot be
   # shown to lie inside this mailbox: not allowed on the paths C12 speaks about
   forbid [C12] mailbox.SetUnread
